@@ -26,21 +26,21 @@ def add (h : Hdr) (k v : Bytes) : Hdr :=
   if h.has k then h.map (fun e => if e.1 = k then (k, e.2 ++ [v]) else e) else h ++ [(k, [v])]
 end Hdr
 
-def hAllow := bytesOfString "Allow"
-def hVary := bytesOfString "Vary"
-def hOrigin := bytesOfString "Origin"
-def hContentLength := bytesOfString "Content-Length"
-def hContentType := bytesOfString "Content-Type"
-def hAccept := bytesOfString "Accept"
-def hAuthorization := bytesOfString "Authorization"
-def hACAO := bytesOfString "Access-Control-Allow-Origin"
-def hACAC := bytesOfString "Access-Control-Allow-Credentials"
-def hACAM := bytesOfString "Access-Control-Allow-Methods"
-def hACAH := bytesOfString "Access-Control-Allow-Headers"
-def hACEH := bytesOfString "Access-Control-Expose-Headers"
-def hACMA := bytesOfString "Access-Control-Max-Age"
-def hACRM := bytesOfString "Access-Control-Request-Method"
-def hACRH := bytesOfString "Access-Control-Request-Headers"
+def hAllow : Bytes := [65, 108, 108, 111, 119]   -- "Allow"
+def hVary : Bytes := [86, 97, 114, 121]   -- "Vary"
+def hOrigin : Bytes := [79, 114, 105, 103, 105, 110]   -- "Origin"
+def hContentLength : Bytes := [67, 111, 110, 116, 101, 110, 116, 45, 76, 101, 110, 103, 116, 104]   -- "Content-Length"
+def hContentType : Bytes := [67, 111, 110, 116, 101, 110, 116, 45, 84, 121, 112, 101]   -- "Content-Type"
+def hAccept : Bytes := [65, 99, 99, 101, 112, 116]   -- "Accept"
+def hAuthorization : Bytes := [65, 117, 116, 104, 111, 114, 105, 122, 97, 116, 105, 111, 110]   -- "Authorization"
+def hACAO : Bytes := [65, 99, 99, 101, 115, 115, 45, 67, 111, 110, 116, 114, 111, 108, 45, 65, 108, 108, 111, 119, 45, 79, 114, 105, 103, 105, 110]   -- "Access-Control-Allow-Origin"
+def hACAC : Bytes := [65, 99, 99, 101, 115, 115, 45, 67, 111, 110, 116, 114, 111, 108, 45, 65, 108, 108, 111, 119, 45, 67, 114, 101, 100, 101, 110, 116, 105, 97, 108, 115]   -- "Access-Control-Allow-Credentials"
+def hACAM : Bytes := [65, 99, 99, 101, 115, 115, 45, 67, 111, 110, 116, 114, 111, 108, 45, 65, 108, 108, 111, 119, 45, 77, 101, 116, 104, 111, 100, 115]   -- "Access-Control-Allow-Methods"
+def hACAH : Bytes := [65, 99, 99, 101, 115, 115, 45, 67, 111, 110, 116, 114, 111, 108, 45, 65, 108, 108, 111, 119, 45, 72, 101, 97, 100, 101, 114, 115]   -- "Access-Control-Allow-Headers"
+def hACEH : Bytes := [65, 99, 99, 101, 115, 115, 45, 67, 111, 110, 116, 114, 111, 108, 45, 69, 120, 112, 111, 115, 101, 45, 72, 101, 97, 100, 101, 114, 115]   -- "Access-Control-Expose-Headers"
+def hACMA : Bytes := [65, 99, 99, 101, 115, 115, 45, 67, 111, 110, 116, 114, 111, 108, 45, 77, 97, 120, 45, 65, 103, 101]   -- "Access-Control-Max-Age"
+def hACRM : Bytes := [65, 99, 99, 101, 115, 115, 45, 67, 111, 110, 116, 114, 111, 108, 45, 82, 101, 113, 117, 101, 115, 116, 45, 77, 101, 116, 104, 111, 100]   -- "Access-Control-Request-Method"
+def hACRH : Bytes := [65, 99, 99, 101, 115, 115, 45, 67, 111, 110, 116, 114, 111, 108, 45, 82, 101, 113, 117, 101, 115, 116, 45, 72, 101, 97, 100, 101, 114, 115]   -- "Access-Control-Request-Headers"
 
 /-! ## Small string helpers -/
 
